@@ -14,4 +14,4 @@ def run(ctx):
         return core.finish(ctx)
     if drv:
         ps.run_pubsub(ctx, set())
-    return core.finish(ctx, level="proof", rule=ps.RULE, extra_assumptions=ps.ASSUME)
+    return core.finish(ctx, level="proof", rule=ps.RULE + "; " + compose.rule(ctx), extra_assumptions=list(ps.ASSUME) + compose.ASSUMPTIONS + ["composition level (send_sample): one publisher, one subscriber, unbounded history and buffer"])
